@@ -14,6 +14,7 @@ import (
 	"fmt"
 	"math/big"
 	"os"
+	"sort"
 	"time"
 
 	admintypes "github.com/Sifchain/sifnode/x/admin/types"
@@ -418,14 +419,105 @@ func directedDeepPool(out *Out, native, bucket *big.Int, tag string) {
 	}
 }
 
+// equalProviders: one pool with k providers of EQUAL units (their 18-decimal shares 1/3, 1/6, 1/7, 1/9 round
+// up, so the rounded shares overshoot the bucket) plus d dust providers holding 1 unit each, whose addresses
+// sort after (dustLast) or before the equal ones in store order; a rewards bucket that is a multiple of
+// 10^18; pool mode or wallet mode; everyone past the rewards lock period; the hourly epoch ends.  All
+// messages are permissionless except the choice of mode / lock period (reward params inside the envelope;
+// with `defaults` the genesis parameters are kept and the height jumps past the 14-day lock period).
+func equalProviders(out *Out, r *Rng, k, d int, dustLast, wallet, defaults bool, bucket *big.Int, amount *big.Int, tag string) {
+	out.Emit("reset", "ok", "reset", false)
+	w := NewWorld([]string{"cusdc"}, []int64{6}, k+d)
+	u := &userWorld{World: w, now: t0}
+	users := append([]sdk.AccAddress{}, w.users...)
+	sort.Slice(users, func(i, j int) bool { return users[i].String() < users[j].String() })
+	var bigs, dust []sdk.AccAddress
+	if dustLast {
+		bigs, dust = users[:k], users[k:]
+	} else {
+		dust, bigs = users[:d], users[d:]
+	}
+	funds := new(big.Int).Mul(amount, big.NewInt(4))
+	for _, a := range users {
+		w.Fund(a, "rowan", funds)
+		w.Fund(a, "cusdc", new(big.Int).Add(funds, bucket))
+	}
+	if !defaults || wallet {
+		rp := w.app.ClpKeeper.GetRewardsParams(w.ctx)
+		rm := &clptypes.MsgUpdateRewardsParamsRequest{Signer: w.admin.String(), LiquidityRemovalLockPeriod: rp.LiquidityRemovalLockPeriod, LiquidityRemovalCancelPeriod: rp.LiquidityRemovalCancelPeriod,
+			RewardsDistribute: wallet, RewardsEpochIdentifier: "hour", RewardsLockPeriod: rp.RewardsLockPeriod}
+		if !defaults {
+			rm.RewardsLockPeriod = uint64(1 + r.Intn(3))
+		}
+		w.Tx(func(ctx sdk.Context) error { _, err := w.csrv.UpdateRewardsParams(sdk.WrapSDKContext(ctx), rm); return err })
+	}
+	asset := clptypes.NewAsset("cusdc")
+	u.lastOp = "equal-providers"
+	u.beginHooks(out, tag)
+	res := w.CreatePool(bigs[0], "cusdc", amount, amount)
+	add := func(a sdk.AccAddress, n *big.Int) string {
+		return w.Tx(func(ctx sdk.Context) error {
+			m := clptypes.NewMsgAddLiquidity(a, asset, sdk.NewUintFromBigInt(n), sdk.NewUintFromBigInt(n))
+			if err := m.ValidateBasic(); err != nil {
+				return err
+			}
+			_, err := w.csrv.AddLiquidity(sdk.WrapSDKContext(ctx), &m)
+			return err
+		})
+	}
+	for _, a := range bigs[1:] {
+		res += "," + add(a, amount)
+	}
+	for _, a := range dust {
+		res += "," + add(a, big.NewInt(1))
+	}
+	res += ",bucket:" + w.Tx(func(ctx sdk.Context) error {
+		m := clptypes.MsgAddLiquidityToRewardsBucketRequest{Signer: bigs[0].String(), Amount: sdk.NewCoins(sdk.NewCoin("cusdc", sdk.NewIntFromBigInt(bucket)))}
+		if err := m.ValidateBasic(); err != nil {
+			return err
+		}
+		_, err := w.csrv.AddLiquidityToRewardsBucket(sdk.WrapSDKContext(ctx), &m)
+		return err
+	})
+	u.lastOp = fmt.Sprintf("equal-providers(k=%d,d=%d,dustLast=%s,wallet=%s,bucket=%s):%s", k, d, boolBit(dustLast), boolBit(wallet), bucket, res)
+	u.endHooks(out, tag)
+	lock := int64(w.app.ClpKeeper.GetRewardsParams(w.ctx).RewardsLockPeriod)
+	for i := 0; i < 3; i++ {
+		if i == 0 {
+			u.height += lock + 10
+			u.now = u.now.Add(15 * 24 * time.Hour)
+		} else {
+			u.height++
+			u.now = u.now.Add(61 * time.Minute)
+		}
+		u.ctx = u.ctx.WithBlockHeight(u.height).WithBlockTime(u.now)
+		u.beginHooks(out, tag)
+		u.endHooks(out, tag)
+	}
+	if bk, found := w.app.ClpKeeper.GetRewardsBucket(w.ctx, "cusdc"); found {
+		out.Hist["equal-providers.bucket-left."+boolBit(!bk.Amount.IsZero())]++
+	}
+}
+
 func init() {
 	families["userhist"] = func(rng *Rng, n int, out *Out, replay string) {
+		// the demonstration of seeded change C10-10: six equal providers, a dust provider sorting last, bucket 6·10^18
+		for _, wallet := range []bool{false, true} {
+			equalProviders(out, NewRng(rng.U64()), 6, 1, true, wallet, true, new(big.Int).Mul(big.NewInt(6), e10(18)), e10(24), ".equal-providers.6+dust."+map[bool]string{false: "pool", true: "wallet"}[wallet])
+		}
 		directedF16(out)
 		directedDeepPool(out, pow2(128), pow2(128), ".deep-pool.2p128")
 		directedDeepPool(out, sub1(pow2(128)), sub1(pow2(128)), ".deep-pool.2p128m1")
 		directedDeepPool(out, pow2(128), new(big.Int).Lsh(big.NewInt(3), 128), ".deep-pool.3x2p128")
 		for sc := 0; sc < n; sc++ {
 			r := NewRng(rng.U64())
+			if sc%10 == 4 {
+				k := []int{3, 6, 7, 9, 5, 8}[r.Intn(6)]
+				m := []int64{1, 6, 7, 9, 10, 3, 100}[r.Intn(7)]
+				amt := []*big.Int{e10(24), e10(18), pow2(100), e10(21)}[r.Intn(4)]
+				equalProviders(out, r, k, 1+r.Intn(2), r.Bool(), r.Bool(), r.Chance(1, 4), new(big.Int).Mul(big.NewInt(m), e10(18)), amt, ".equal-providers")
+				continue
+			}
 			out.Emit("reset", "ok", "reset", false)
 			var u *userWorld
 			if sc%3 == 1 {
